@@ -146,7 +146,9 @@ svx_read_header	(SF_PRIVATE *psf)
 	psf->sf.format = SF_FORMAT_SVX ;
 
 	while (! done)
-	{	psf_binheader_readf (psf, "Em4", &marker, &chunk_size) ;
+	{	sf_count_t chunk_start = psf_binheader_tell (psf) ;
+
+		psf_binheader_readf (psf, "Em4", &marker, &chunk_size) ;
 
 		switch (marker)
 		{	case FORM_MARKER :
@@ -317,6 +319,12 @@ svx_read_header	(SF_PRIVATE *psf)
 
 		if (! psf->sf.seekable && (parsestage & HAVE_BODY))
 			break ;
+
+		/* End of input, or a chunk size that takes the parser back to where it was. */
+		if (psf_binheader_tell (psf) <= chunk_start)
+		{	psf_log_printf (psf, "*** Chunk at position %D does not advance the parser. Exiting parser.\n", chunk_start) ;
+			break ;
+			} ;
 
 		if (psf_ftell (psf) >= psf->filelength - SIGNED_SIZEOF (chunk_size))
 			break ;
